@@ -13,6 +13,7 @@ import PestModel.Drv.CharSet
 import PestModel.Drv.Pairs
 import PestModel.Drv.Hyps
 import PestModel.Drv.Front
+import PestModel.Drv.Examples
 
 open Pest
 
@@ -126,7 +127,7 @@ def handle (sess : Session) (line : String) : Session × String :=
     | some r => r
     | none =>
       match (handlePairs sess toks <|> handleHyps sess toks <|> handleText toks <|> handlePratt toks <|> handleWorld toks
-              <|> handleCharSet toks <|> handleFront toks) with
+              <|> handleCharSet toks <|> handleFront toks <|> handleExamples toks) with
       | some r => (sess, r)
       | none => (sess, "bad-request:" ++ cmd)
 
